@@ -53,9 +53,25 @@ def run_case(darsia, rng, tid, cfg, nextra, rgb, dtype, shape, probe_is_base):
     # ONE analysis object serves several probes one after the other (that is how it is used on an image series): every
     # call is judged on its own; the last probe is the baseline itself
     probes = [base_a.copy() if probe_is_base else arr(), arr(), base_a.copy()]
+    newbase_a = arr()
+    if nextra == 0:
+        # without a cleaning filter the baseline may be replaced later: update(base=...) - the new baseline maps to zero,
+        # other probes are taken relative to it
+        probes += [("update", newbase_a), ("update", arr())]
     evs = []
     ca = None
     for j, probe_a in enumerate(probes):
+        if isinstance(probe_a, tuple):
+            if j == 3:
+                try:
+                    with warnings.catch_warnings():
+                        warnings.simplefilter("ignore")
+                        ca.update(base=image(newbase_a))
+                except Exception as ex:  # noqa
+                    evs.append({"tid": f"{tid}:{j}", "op": "run", "cfg": cfg, "rgb": int(rgb), "dtype": dtype, "raised": 1, "nextra": nextra, "call": j, "error": "update: " + repr(ex)[:160]})
+                    break
+                base_a = newbase_a
+            probe_a = probe_a[1]
         e = {"tid": f"{tid}:{j}", "op": "run", "cfg": cfg, "rgb": int(rgb), "dtype": dtype, "raised": 0, "nextra": nextra, "call": j}
         evs.append(e)
         del calls[:]
